@@ -15,18 +15,24 @@ RULE = ("Engine F: generated factories over the widest grammar (sources, machine
         "timestamp: any exception escaping env.step() or > 20000 events in one instant is a violation, bucketed by "
         "(exception type, innermost factorysimpy file:function) / ('livelock', ...). Plus generated invalid configurations "
         "(capacity <= 0 / non-int, unknown buffer mode, negative delay, non-blocking source with inter-arrival 0, node without "
-        "required edges, out-of-range constant index): completing silently is the violation. Non-trivial: factory has >= 2 "
-        "different edge kinds and a zero delay or same-instant tie (>= 2 store operations on different edges in one instant).")
+        "required edges, out-of-range constant index): completing silently is the violation. Plus (a fifth of the cases) Engine S: "
+        "well-formed operation histories on every store and edge class - what the nodes of some valid model do to one edge, including "
+        "same-instant refills and cancels no small factory produces: no operation made with a live reservation of the caller and no "
+        "library process may raise (same crash buckets). Non-trivial: factory has >= 2 "
+        "different edge kinds and a zero delay or same-instant tie (>= 2 store operations on different edges in one instant); "
+        "history with >= 6 put/get/cancel operations.")
+RULE += (" Two in ten flow-shaped factories also contain rework loops (a machine feeding itself or a machine of an earlier layer through a "
+         "Buffer / Fleet edge with a strictly positive delay / transit time, so no zero-time cycle exists); machine oracles work per visit, not per item.")
 ASSUMPTIONS = ["valid domain = constructor signatures and parameter documentation; explicit ValueError('Unsupported edge type') is a rejection, not a crash"]
 
-PROFILE = {"conveyors": True, "conveyor_to_sink": True, "conveyor_weight": 1, "pack": 2}
+PROFILE = {"cycles": 2, "conveyors": True, "conveyor_to_sink": True, "conveyor_weight": 1, "pack": 2}
 INVALID_KINDS = ["capacity_zero", "capacity_negative", "capacity_float", "buffer_mode", "negative_delay_edge",
                  "negative_delay_node", "negative_iat", "nonblocking_zero_iat", "missing_in_edge", "missing_out_edge",
                  "const_index_out_of_range_out", "const_index_out_of_range_in"]
 
 
 def examples(tier):
-    return 9600 if tier == "quick" else 192000
+    return 16000 if tier == "quick" else 320000
 
 
 def _mk_invalid(t):
@@ -120,13 +126,59 @@ def strategy(tier):
     valid_k1 = gen_factory.factories(dict(PROFILE, nb_to_conveyor=True))
     valid_k7 = gen_factory.factories(dict(PROFILE, fleet_zero_delay=True, conveyors=False, edge_kinds=["Buffer", "Fleet", "Fleet"]))
     valid_conv = gen_factory.factories(dict(PROFILE, conveyor_weight=3, pack=0, edge_kinds=["Buffer", "Buffer", "Fleet"]))
+    valid_fleet = gen_factory.factories(dict(PROFILE, conveyors=False, pack=1, edge_kinds=["Buffer", "Fleet", "Fleet"]))
     safe = gen_factory.factories({"pack": 1})
     invalid = st.tuples(safe, st.integers(0, 1000), st.integers(0, 1000)).map(_mk_invalid).map(
         lambda s: s if s is not None else {"skip": True})
-    return st.one_of(valid, valid, valid, valid_conv, valid_conv, valid_conv, valid_k1, valid_k7, invalid, invalid, invalid)
+    from .. import gen_store
+    hist = gen_store.case(S_CLASSES, S_WEIGHTS, max_ops=40)
+    return st.one_of(valid, valid, valid, valid_conv, valid_conv, valid_conv, valid_fleet, valid_fleet, valid_k1, valid_k7,
+                     invalid, invalid, invalid, hist, hist, hist)
 
 
-shrink_candidates = gen_factory.shrink_candidates
+S_CLASSES = ["ReservablePriorityReqStore", "ReservableReqStore", "ReservablePriorityReqFilterStore", "BufferStore", "FleetStore",
+             "Buffer", "Fleet", "SlottedConveyor", "ContinuousConveyor"]
+S_WEIGHTS = {"rp": 8, "rg": 5, "put": 8, "get": 5, "cp": 2, "cg": 2, "settle": 2, "adv": 4}
+
+
+def shrink_candidates(case):
+    if "ops" in case:
+        from .. import gen_store
+        yield from gen_store.shrink_candidates(case)
+    else:
+        yield from gen_factory.shrink_candidates(case)
+
+
+def run_store(case):
+    """Engine S part: a well-formed history (every put / get / cancel uses a live reservation of the calling process) is what
+    the nodes of some valid model do to an edge; none of its operations and no library process may raise."""
+    from ..harness_store import StoreRun, Oracle
+
+    class CrashS(Oracle):
+        def __init__(self, res):
+            self.res = res
+            self.n = 0
+
+        def kernel_exception(self, h, exc):
+            self.res.violate(("crash",) + exception_signature(exc),
+                             "store history: a library process raised %s: %s (t=%s)" % (type(exc).__name__, str(exc)[:200], h.env.now))
+
+        def after_op(self, h, op, outcome):
+            if op[0] in ("put", "get", "cp", "cg"):
+                self.n += 1
+            if outcome["status"] == "exc" and not outcome.get("expected_exc"):
+                exc = outcome["exc"]
+                self.res.violate(("crash",) + exception_signature(exc),
+                                 "store history: %s with a live reservation of the caller raised %s: %s (t=%s, op #%d)" % (
+                                     op[0], type(exc).__name__, str(exc)[:200], h.env.now, h.current_op_index))
+    res = Result()
+    o = CrashS(res)
+    h = StoreRun(case, res, [o])
+    h.run()
+    res.aborted = None        # the abort label only repeats the violation recorded above
+    res.nontrivial = o.n >= 6
+    res.classes = ["history:" + case["subject"]["cls"]]
+    return res
 
 
 def component_of(f, sig):
@@ -152,6 +204,8 @@ def is_rejection(exc):
 
 
 def run_case(case):
+    if "ops" in case:
+        return run_store(case)
     res = Result()
     if case.get("skip"):
         res.aborted = "no_applicable_target"
